@@ -3,7 +3,7 @@ TITLE = 'TOMTOM scores and p-values match an independent complete-score referenc
 CONTRACT_MODULES = ['contracts.tomtom_c']
 FUNCTIONS = ['tangermeme.tools.tomtom._merge_rc_results', 'tangermeme.tools.tomtom._pairwise_max', 'tangermeme.tools.tomtom._p_values', 'tangermeme.tools.tomtom._tomtom#nearest']
 BOUNDED = 'bounded.C14'
-BOUNDED_BUDGET = {'quick': 75, 'thorough': 600}
+BOUNDED_BUDGET = {'quick': 120, 'thorough': 600}
 LEVEL = 'other'
 EXPLANATION = ("n_nearest selection of _tomtom (fragment; argsort axiom): the reported rows are the scratch rows of distinct valid targets with non-decreasing p-values, no unselected target is nearer, other queries untouched; deductive: _p_values (t_sums = complete-score alignment sums by a two-level recursive spec, reported score = maximum over all nt+nq-1 alignments, offset/overlap attain it, p-value = B_cdfs[nt, score-1], 1 for score 0); _merge_rc_results (strand merge 1-(1-min p)^2, fields of the higher-scoring strand, ties, flag, frame) and "
                "_pairwise_max (pmf of the maximum of two independent variables with prefix-sum recursive spec, also under the x-is-z "
